@@ -805,6 +805,9 @@ func (in *Interp) unop(instr *ssa.UnOp, x value) value {
 		if p == nil {
 			in.runtimePanic("invalid memory address or nil pointer dereference")
 		}
+		if pz, bad := (*p).(poison); bad {
+			panic(unsupported{"read of a variable whose package initializer could not be executed: " + pz.why})
+		}
 		return load(instr.Type(), p)
 	case token.NOT:
 		return in.not(x)
@@ -1079,7 +1082,7 @@ func (in *Interp) sliceOp2(instr *ssa.Slice, x, lo, hi, max value, Len, Cap int)
 		}
 		return x[l:h:m]
 	case *value:
-		return (*x).(array)[l:h:m]
+		return []value((*x).(array)[l:h:m])
 	}
 	panic(fmt.Sprintf("slice: unexpected X type: %T", x))
 }
